@@ -263,8 +263,21 @@ def r6_cli_prints_the_result(w):
     return rs
 
 
-RULES = [r1_no_ambient, r2_no_shared_state, r3_no_hash_order, r4_per_call_state, r5_send_sync, r6_cli_prints_the_result]
+def r7_inputs_do_not_affect_each_other(w):
+    """= C15.R4: in one run of the command line tool the result for an input does not depend on the other inputs - a batch loop that a failing
+    input can end (seed C17/6B: `map_while(Result::ok)`) leaves the inputs after it unprocessed"""
+    from rules import c15
+    rs = c15.r4_error_isolation(w)
+    rs.rule = 'C17.R7'
+    for f in rs.findings:
+        f.rule = 'C17.R7'
+        f.key = f.key.replace('C15.R4|', 'C17.R7|', 1)
+    return rs
+
+
+RULES = [r1_no_ambient, r2_no_shared_state, r3_no_hash_order, r4_per_call_state, r5_send_sync, r6_cli_prints_the_result, r7_inputs_do_not_affect_each_other]
 for _f in RULES[:5]:
     _f.needs = ('core',)
 r6_cli_prints_the_result.needs = ('cli', 'core')
+r7_inputs_do_not_affect_each_other.needs = ('cli',)
 MATRIX_RULES = RULES
